@@ -25,7 +25,7 @@ man = dict(
     version=1,
     setup_cmd="./check --setup",
     hooks=dict(guard="QLIBC_VERIF",
-               enable="no source hooks: checks compile /repo's sources with clang -DQLIBC_VERIF -fsanitize=address,undefined and instrument from outside via -Wl,--wrap= (malloc family, pthread_mutex_trylock/unlock, usleep, popen)",
+               enable="no source hooks: checks compile /repo's sources with clang -DQLIBC_VERIF -fsanitize=address,undefined and instrument from outside via -Wl,--wrap= (malloc family, pthread_mutex_trylock/unlock, usleep, popen, qstrreplace)",
                baseline_off_cmd="cmake --build /repo/_build && ctest --test-dir /repo/_build -j8 --timeout 900",
                source_commits=[], add_only=True),
     engines=[
